@@ -1,4 +1,6 @@
 import Poupool.Proofs.ActorLib
+import Poupool.Model.Tank
+import Poupool.Properties.C08
 /-!
 # C05 (i)  the mains fill valve is open only in the tank phases `fill` and `low`
 (hysteresis and time limits: see the Tank decision theorems below and the timed correspondence in checks/c05.py)
@@ -18,5 +20,49 @@ theorem tank_halt_closes_valve :
       (fun _ s' => s'.leaf == Tank.leaf_halt && s'.v Tank.v_dev_main == 0) = true := by decide +kernel
 
 example : (statesOf tankSafetyReach).any (fun s => s.v Tank.v_dev_main == 1) = true := by decide +kernel
+
+/-! ## (ii) hysteresis and (iii) time limits, on the decision model (Model/Tank.lean) -/
+open Poupool.Tank
+
+/-- while the valve stays open after a poll, the measured level is below low + hysteresis (resp. ≤ too_low in fill) -/
+theorem valve_kept_open_implies_below (c : Cfg) (h tis : Int) :
+    (∀ n, pollLow c h tis = .rearm n → h < c.low + c.hyst) ∧ (∀ n, pollFill c h tis = .rearm n → h ≤ c.tooLow) := by
+  refine ⟨?_, ?_⟩
+  · intro n; simp only [pollLow]; split
+    · intro hh; simp at hh
+    · split
+      · intro hh; simp at hh
+      · intro _; omega
+  · intro n; simp only [pollFill]; split
+    · intro hh; simp at hh
+    · split
+      · intro hh; simp at hh
+      · intro _; omega
+
+/-- it opens at the first `normal` poll that sees the level below low − hysteresis -/
+theorem opens_when_below (c : Cfg) (h : Int) (hl : h < c.low - c.hyst) : pollNormal c h = .toLow := by
+  simp [pollNormal, hl]
+
+/-- it closes at the first `low` poll that sees the level recovered (before the 6 h limit; after it the stop closes it) -/
+theorem closes_when_recovered (c : Cfg) (h tis : Int) (hr : h ≥ c.low + c.hyst) :
+    pollLow c h tis = .toNormal ∨ pollLow c h tis = .emergency := by
+  simp only [pollLow]
+  by_cases ht : tis > sixHours
+  · right; rw [if_pos ht]
+  · left; rw [if_neg ht, if_pos hr]
+
+/-- at the limits (2 h in fill, 6 h in low) the poll requests the emergency stop, which halts the tank itself
+    (`tank_halt_closes_valve`) and Filtration – whatever Filtration's phase, also when it is already halted -/
+theorem limits (c : Cfg) (h tis : Int) :
+    (tis > twoHours → pollFill c h tis = .emergency) ∧ (tis > sixHours → pollLow c h tis = .emergency) := by
+  constructor
+  · intro ht; simp [pollFill, ht]
+  · intro ht; simp [pollLow, ht]
+
+/-- the fill phase does not open the valve unless the level is below too_low -/
+theorem fill_opens_only_below_too_low (c : Cfg) (h : Int) : (enterFill c h).1 = true → h < c.tooLow := by
+  simp only [enterFill]; split <;> simp_all
+
+example : pollLow { hyst := 5, tooLow := 10, low := 30, high := 70 } 20 0 = .rearm 10 := by decide
 
 end Poupool.C05
